@@ -185,7 +185,9 @@ def run(ctx):
               "import_connection_target and _slice_inner)", asm, goal)
     from contracts import c_conntarget as cc
     obs, info = cc.roundtrip_obligations()
-    if len(obs) < 1:
+    for u in info.get("unsupported", []):
+        ctx.unsupported.append((cc.KEY + " ; " + c_import.KEY, u))
+    if len(obs) < 1 and not info.get("unsupported"):
         ctx.checker_errors.append("no round-trip obligation generated for export/import_connection_target")
     ctx.discharge(obs, cc.KEY + " ; " + c_import.KEY + " [round trip, one symbolic run]", info)
     key, obs, info = c_import.import_concat_obligations(8 if ctx.tier == "thorough" else 4)
